@@ -30,12 +30,15 @@ BinOps == {"+", "-", "*", "/", "<", "<=", ">", ">=", "==", "!=", "~=", "&&", "||
 
 ECs == { [k |-> "binL", op |-> op] : op \in BinOps } \cup { [k |-> "binR", op |-> op] : op \in BinOps }
        \cup { [k |-> "skipR", op |-> "&&"], [k |-> "skipR", op |-> "||"] }
+       \* the left operand is an undefined identifier (tolerated: it counts as nil), the hole is the right operand
+       \cup { [k |-> "unkL", op |-> op] : op \in {"==", "!=", "||"} }
        \cup { [k |-> c, op |-> ""] : c \in {"not", "arr", "hashv", "idxI", "idxL", "argGo", "argP", "argUser", "argVar0", "argVar1", "cond", "elifcond", "iter"} }
 
 \* the other operand is chosen so that the hole is evaluated (binL/binR) or skipped (skipR)
 WrapE(c, e) ==
   CASE c.k = "binL"  -> Par(Bin(c.op, e, IF c.op = "||" THEN Bool(FALSE) ELSE IF c.op = "&&" THEN Bool(TRUE) ELSE IntL(1)))
     [] c.k = "binR"  -> Par(Bin(c.op, IF c.op = "||" THEN Bool(FALSE) ELSE IF c.op = "&&" THEN Bool(TRUE) ELSE IntL(1), e))
+    [] c.k = "unkL"  -> Par(Bin(c.op, Id("zz"), e))
     [] c.k = "skipR" -> Par(Bin(c.op, IF c.op = "||" THEN Bool(TRUE) ELSE Bool(FALSE), e))
     [] c.k = "not"   -> Not(e)
     [] c.k = "arr"   -> Arr(<<IntL(1), e>>)
@@ -116,7 +119,7 @@ IterOK(cs) == IF cs = <<>> THEN TRUE ELSE IF Head(cs).k = "not" THEN ~EndsInCall
 RECURSIVE CondOK(_)
 CondOK(cs) == IF cs = <<>> THEN TRUE
               ELSE IF Head(cs).k \in {"arr", "hashv"} THEN FALSE
-              ELSE IF Head(cs).k \in {"binL", "binR", "skipR", "not"} THEN CondOK(Tail(cs))
+              ELSE IF Head(cs).k \in {"binL", "binR", "skipR", "unkL", "not"} THEN CondOK(Tail(cs))
               ELSE TRUE
 AddEC == /\ sc = "none" /\ Len(ecs) < MaxNest
          /\ (IF ecs = <<>> THEN TRUE ELSE Head(ecs).k \notin BlockECs)
